@@ -170,6 +170,13 @@ func (d *Document) CreateTOCSDT(title string, maxLevel int) *SDT {
 
 // AddTOCEntry 向目录SDT添加条目
 func (sdt *SDT) AddTOCEntry(text string, level int, pageNum int, entryID string) {
+	// 目录级别为1-9（对应目录样式 13-21）；超出范围的级别没有对应的目录样式，归入最近的有效级别
+	if level < 1 {
+		level = 1
+	} else if level > 9 {
+		level = 9
+	}
+
 	// 确定目录样式ID (13=toc 1, 14=toc 2, 15=toc 3等)
 	styleVal := fmt.Sprintf("%d", 12+level)
 
